@@ -621,7 +621,7 @@ func runC06(r *core.Run) {
 	core.Clause(r, "file-grid", core.Opts{Rule: "every format (SAM: File and FileHeader) x {plain, .gz written with compress/gzip} x content {empty file, one record, many records, a file whose decode ends in an error item, the 9 KiB file, the long-line file, a file with one line of 70 000 bytes, one with a line of 2 MiB, a ~300 KiB file, files that begin with the magic number of another file type or with a broken gzip header, files in which every kind of line the format has (header and comment lines before and after the first record, name lines, '+' lines, quoted names) is 4090, 5000 or 70 000 bytes long} plus a multi-member .gz: File(path) yields what Reader yields on the bytes; a missing path yields exactly one item, an error - also when its compressed or uncompressed twin, a backup, another compression or an upper-case twin exists next to it; names with a meaning for command-line tools or URL-aware openers (\"-\", the empty name, \"stdin\", \"~\", http:// and file:// URLs) are ordinary missing paths; how the path reaches the file plays no role (blanks and non-ASCII in it, a directory whose name ends in .gz, a symbolic link, a relative path, dot segments); non-trivial = all"},
 		func(emit func(c06File) bool) {
 			for _, f := range formats {
-				for _, what := range append(fileBeginningNames(), "long-lines-of-every-kind:4090", "long-lines-of-every-kind:5000", "long-lines-of-every-kind:70000", "empty", "one", "many", "error", "error-middle", "large", "longline", "line-70KiB", "line-2MiB", "huge", "gzip-magic", "zstd-magic", "gzip-bytes", "missing", "missing-next-to-compressed-twin", "missing-next-to-plain-twin", "missing-next-to-backup", "missing-next-to-other-compression", "missing-next-to-upper-case-twin", "missing-special-name:-", "missing-special-name:", "missing-special-name:stdin", "missing-special-name:/dev/stdin/x", "missing-special-name:~", "missing-special-name:http://example.org/x.fa", "missing-special-name:file:///etc/hostname", "path:space-and-unicode", "path:dir-named-like-gz", "path:symlink", "path:relative", "path:dot-segments") {
+				for _, what := range append(append(fileBeginningNames(), "long-lines-of-every-kind:4090", "long-lines-of-every-kind:5000", "long-lines-of-every-kind:70000", "empty", "one", "many", "error", "error-middle", "large", "longline", "line-70KiB", "line-2MiB", "huge", "gzip-magic", "zstd-magic", "gzip-bytes", "missing", "missing-next-to-compressed-twin", "missing-next-to-plain-twin", "missing-next-to-backup", "missing-next-to-other-compression", "missing-next-to-upper-case-twin", "missing-special-name:-", "missing-special-name:", "missing-special-name:stdin", "missing-special-name:/dev/stdin/x", "missing-special-name:~", "missing-special-name:http://example.org/x.fa", "missing-special-name:file:///etc/hostname", "path:space-and-unicode", "path:dir-named-like-gz", "path:symlink", "path:relative", "path:dot-segments"), specialNameShapes()...) {
 					for _, gz := range []bool{false, true} {
 						emit(c06File{f.Name, what, gz})
 					}
@@ -760,6 +760,34 @@ func runC06(r *core.Run) {
 						ask = rel
 					}
 				}
+			case "dot-segments-placeholder-never-used":
+			}
+			if strings.HasPrefix(pathShape, "special-name:") {
+				// A file name is an opaque string: characters that mean something to a shell, to glob or URL
+				// expansion, or to printf are ordinary name characters. The file stands in a directory of its
+				// own next to decoys with OTHER content whose names the special name would select if it were
+				// expanded as a pattern.
+				var k int
+				fmt.Sscanf(strings.TrimPrefix(pathShape, "special-name:"), "%d", &k)
+				sn := specialNames[k]
+				dir := filepath.Join(scratch, fmt.Sprintf("special-%s-%v-%d", c.Format, c.Gz, k))
+				os.MkdirAll(dir, 0o755)
+				defer os.RemoveAll(dir)
+				decoy := corpus(c.Format, "small")[0]
+				if c.Gz {
+					var zb bytes.Buffer
+					zw := gzip.NewWriter(&zb)
+					zw.Write(decoy)
+					zw.Close()
+					decoy = zb.Bytes()
+				}
+				for _, d := range sn.decoys {
+					os.WriteFile(filepath.Join(dir, d+ext), decoy, 0o644)
+				}
+				path = filepath.Join(dir, sn.name+ext)
+				ask = path
+			}
+			switch pathShape {
 			case "dot-segments":
 				path = filepath.Join(scratch, fmt.Sprintf("dots-%s-%v%s", c.Format, c.Gz, ext))
 				ask = scratch + "/./x/../" + filepath.Base(path)
@@ -877,4 +905,52 @@ func runC06(r *core.Run) {
 			}
 			return core.Outcome{Class: fmt.Sprint(c.What, " gz=", c.Gz, " first=", c.First), Nontrivial: true, Evals: 5}
 		})
+}
+
+
+// specialNames: file names made of characters that some expansion facility gives a meaning to, each
+// with decoy siblings that the expansion would pick up.
+var specialNames = []struct {
+	name   string
+	decoys []string
+}{
+	{"sample[1]", []string{"sample1"}},
+	{"lane*", []string{"lane1", "lane2", "lane"}},
+	{"what?", []string{"whatX", "what"}},
+	{"run[2024", []string{"run2"}},
+	{"x[]y", []string{"xy"}},
+	{"a{b,c}", []string{"ab", "ac"}},
+	{"[a-c]", []string{"a", "b"}},
+	{"back\\*slash", []string{"back*slash", "backXslash"}},
+	{"~", []string{"home"}},
+	{"~root", []string{"root"}},
+	{"$HOME", []string{"HOME"}},
+	{"${PATH}", []string{"PATH"}},
+	{"%41", []string{"A"}},
+	{"%s%d%n", []string{"s"}},
+	{"a b", []string{"a", "b"}},
+	{" lead", []string{"lead"}},
+	{"trail ", []string{"trail"}},
+	{"-", []string{"stdin"}},
+	{"-x", []string{"x"}},
+	{"a;b&c|d", []string{"a"}},
+	{"x#frag", []string{"x"}},
+	{"q?a=b", []string{"q"}},
+	{"c:d", []string{"d"}},
+	{"http:", []string{"http"}},
+	{"a+b", []string{"a b"}},
+	{"new\nline", []string{"new"}},
+	{".hidden", []string{"hidden"}},
+	{"..two", []string{"two"}},
+	{"UPPER", []string{"upper"}},
+	{"e\u0301", []string{"\u00e9"}}, // decomposed vs precomposed é
+	{"\xff\xfe", []string{"\ufffd\ufffd"}},
+}
+
+func specialNameShapes() []string {
+	var l []string
+	for i := range specialNames {
+		l = append(l, fmt.Sprint("path:special-name:", i))
+	}
+	return l
 }
